@@ -1920,7 +1920,7 @@ fn seq_well_formed(items: &[Item], path: &SeqPath) -> bool {
                 } else if users_seen || !matches!(path, SeqPath::Intrinsic(_)) {
                     return false;
                 }
-                if *sc != 0 && *path != SeqPath::Free {
+                if *sc != 0 && !matches!(path, SeqPath::Free | SeqPath::Method) {
                     return false;
                 }
             }
@@ -1937,7 +1937,11 @@ fn seq_well_formed(items: &[Item], path: &SeqPath) -> bool {
             Item::Site(m, _, _) => {
                 let ok = match path {
                     SeqPath::Free => *m <= 3,
-                    SeqPath::Method => *m <= 1,
+                    // a struct without a method of the name gives other diagnostics than the ones read here
+                    SeqPath::Method => {
+                        let scope = if *m >= 2 { 1 } else { 0 };
+                        *m <= 3 && items.iter().any(|x| matches!(x, Item::Decl(sc, _) if *sc == scope))
+                    }
                     SeqPath::TStruct => *m == 1,
                     SeqPath::Intrinsic(_) => *m == 0,
                 };
@@ -1979,6 +1983,8 @@ fn visible_at(items: &[Item], pos: usize, mode: u8, path: &SeqPath) -> Option<Ve
     let v = match (path, mode) {
         (SeqPath::Free, 1) => ns,
         (SeqPath::Free, 2) if !ns.is_empty() => ns,
+        // the methods of the second struct
+        (SeqPath::Method, 2 | 3) => ns,
         _ => root,
     };
     if v.is_empty() { None } else { Some(v) }
@@ -2062,7 +2068,8 @@ fn seq_program(items: &[Item], include: &[bool], path: &SeqPath) -> Option<Strin
     let in_struct = matches!(path, SeqPath::Method | SeqPath::TStruct);
     let wrap = |inside: bool, text: &str| if inside { format!("namespace N {{\n{}}}\n", text) } else { text.to_string() };
     let mut body = String::new(); // P=M: the members of the struct
-    let mut after = String::new(); // P=M: what follows the struct
+    let mut body2 = String::new(); // P=M: the members of the second struct
+    let mut after = String::new(); // P=M: what follows the structs
     for (k, it) in items.iter().enumerate() {
         match it {
             Item::Decl(sc, c) => {
@@ -2071,7 +2078,7 @@ fn seq_program(items: &[Item], include: &[bool], path: &SeqPath) -> Option<Strin
                 }
                 let (decl, _) = cand_decl(c, &fname, in_struct)?;
                 if in_struct {
-                    body.push_str(&decl);
+                    if *sc == 1 { body2.push_str(&decl) } else { body.push_str(&decl) }
                 } else {
                     s.push_str(&wrap(*sc == 1, &decl));
                 }
@@ -2102,12 +2109,13 @@ fn seq_program(items: &[Item], include: &[bool], path: &SeqPath) -> Option<Strin
                 }
                 let call = |q: &str| format!("    {}{}({});\n", q, callee, exprs.join(", "));
                 if in_struct {
-                    if *mode == 0 {
+                    if *mode == 0 || *mode == 3 {
                         s.push_str(&globals);
-                        body.push_str(&format!("void c{}() {{\n{}{}}}\n", k, locals, call("")));
+                        let text = format!("void c{}() {{\n{}{}}}\n", k, locals, call(""));
+                        if *mode == 3 { body2.push_str(&text) } else { body.push_str(&text) }
                     } else {
                         after.push_str(&globals);
-                        let ty = if *path == SeqPath::TStruct { "S<int>" } else { "S" };
+                        let ty = if *path == SeqPath::TStruct { "S<int>" } else if *mode == 2 { "S2" } else { "S" };
                         after.push_str(&format!("void c{}() {{\n    {} s;\n{}{}}}\n", k, ty, locals, call("s.")));
                     }
                 } else {
@@ -2162,7 +2170,8 @@ fn seq_program(items: &[Item], include: &[bool], path: &SeqPath) -> Option<Strin
     }
     if in_struct {
         let head = if *path == SeqPath::TStruct { "template<typename W> " } else { "" };
-        s.push_str(&format!("{}struct S {{\n{}}};\n{}", head, body, after));
+        let second = if body2.is_empty() { String::new() } else { format!("struct S2 {{\n{}}};\n", body2) };
+        s.push_str(&format!("{}struct S {{\n{}}};\n{}{}", head, body, second, after));
     }
     Some(s)
 }
@@ -3285,7 +3294,7 @@ pub fn run(args: &Args, out: &mut Out) {
             tuples.push(centre.iter().map(|c| random_arg(&mut rng, *c)).collect());
         }
         let path = if kind == 9 { if i % 24 == 9 { SeqPath::TStruct } else { SeqPath::Method } } else { SeqPath::Free };
-        let with_ns = matches!(kind, 5 | 6 | 7);
+        let with_ns = matches!(kind, 5 | 6 | 7) || (path == SeqPath::Method && (i / 24) % 2 == 1);
         let with_helpers = matches!(kind, 7 | 8) ;
         let explicit: Vec<Option<Ty>> = if matches!(kind, 4 | 5) && rng.chance(1, 5) { vec![Some(centre[0])] } else { Vec::new() };
         let mut items: Vec<Item> = Vec::new();
@@ -3312,6 +3321,7 @@ pub fn run(args: &Args, out: &mut Out) {
             if last || rng.chance(4, 5) {
                 for t in &tuples {
                     let mode = match path {
+                        SeqPath::Method if with_ns => rng.below(4) as u8,
                         SeqPath::Method => rng.below(2) as u8,
                         SeqPath::TStruct => 1,
                         _ if with_ns => rng.below(4) as u8,
@@ -3333,6 +3343,20 @@ pub fn run(args: &Args, out: &mut Out) {
                     items.push(Item::Site(0, tuples[0].clone(), explicit.clone()));
                 } else {
                     pending_defs.push(id);
+                }
+            }
+        }
+        if path == SeqPath::Method {
+            // a call names a struct that has a method of the name
+            let has = |sc: u8| items.iter().any(|x| matches!(x, Item::Decl(s, _) if *s == sc));
+            let (has0, has1) = (has(0), has(1));
+            for it in items.iter_mut() {
+                if let Item::Site(m, _, _) = it {
+                    if *m >= 2 && !has1 {
+                        *m -= 2;
+                    } else if *m < 2 && !has0 {
+                        *m += 2;
+                    }
                 }
             }
         }
